@@ -3,13 +3,15 @@
 source file (tools/mutate.py): equivalent / behaviour changes but no listed property is violated / violates property Cxx (with demo)."""
 import json, sys
 res, file, wt = sys.argv[1:4]
+files = file.split(',')
+MUT = {m['id']: m for m in json.load(open(sys.argv[4]))} if len(sys.argv) > 4 else {}
 props = [json.loads(l) for l in open('/verif/properties.jsonl')]
-rel = [p for p in props if file in p['anchors']['files']]
+rel = [p for p in props if any(f in p['anchors']['files'] for f in files)]
 rs = [json.loads(l) for l in open(res) if l.strip()]
-sv = [r for r in rs if r['status'] == 'survived' and r['file'] == file]
+sv = [r for r in rs if r['status'] == 'survived' and r['file'] in files]
 print(f'''You are triaging small code mutations of the Python package pyttb (sandialabs/pyttb, a port of the MATLAB Tensor Toolbox). You have a scratch git worktree of the repository at {wt} (work ONLY there; never touch /repo or /verif; do not read /verif). Python: `/venv/bin/python` with `PYTHONPATH={wt}`. No network.
 
-Below is a list of one-token mutations of `{file}` (each applied ALONE to the pristine file: replace the text `old` by `new` at the given line) that keep the package's 208 doctests green. For EACH mutation decide, by reading the code and by experiment (apply the mutation in your worktree, run small experiments through the public API, then restore the file with `git -C {wt} checkout -- {file}`), which of these holds:
+Below is a list of one-token mutations of `{file}` (each applied ALONE to the pristine file: replace the text `old` by `new` at the given line, starting at the given 0-based column - when the same text occurs more than once on the line it is the occurrence at that column that counts) that keep the package's 208 doctests green. For EACH mutation decide, by reading the code and by experiment (apply the mutation in your worktree, run small experiments through the public API, then restore the file with `git -C {wt} checkout -- pyttb`), which of these holds:
   - "equivalent": no observable behaviour change for any input (e.g. a transpose of a 1-d array, commutative arguments, a branch that cannot be reached, a slice bound beyond the array end);
   - "no-property": behaviour changes for some input, but NONE of the properties listed below is violated (e.g. an internal search direction changes but everything the properties promise still holds; a printed line changes; an error message changes; a rejected request is rejected by a later statement instead);
   - "violates": some input exists for which one of the properties below is violated through the public API. Then write a minimal demonstration `{wt}/_triage/<id>.py` (run as `PYTHONPATH=<root> /venv/bin/python <id>.py`; exits 0 on the pristine tree and 1, printing what went wrong, on the mutated tree; plain numpy reference, no pyttb helpers for the reference) and VERIFY both exits yourself.
@@ -21,7 +23,7 @@ for p in rel:
     print(f"- {p['id']} {p['title']}: {p['statement']} [Quantifier: {p['quantifier']['text']}]\n")
 print("## Mutations\n")
 for r in sv:
-    print(f"- {r['id']}: line {r['line']} in `{r['func']}`: `{r['old']}` -> `{r['new']}`  ({r['op']})")
+    print(f"- {r['id']}: {r['file']} line {r['line']} col {MUT.get(r['id'], {}).get('col', '?')} in `{r['func']}`: `{r['old']}` -> `{r['new']}`  ({r['op']})")
 print(f'''
 ## Deliverable
 Write `{wt}/_triage/result.json`: a JSON list of {{"id": ..., "class": "equivalent"|"no-property"|"violates"|"suspect", "property": "Cxx" or null, "why": "one or two sentences", "needs": "for violates: what input is needed", "demo": "<id>.py" or null}} with one entry per mutation above, and leave the worktree clean (`git -C {wt} status --short` shows only `_triage/`). Final message: counts per class and the list of violating ids with one line each.''')
